@@ -157,6 +157,15 @@ def _l2_traces(ctx, prop, histories=None, scn_name='base'):
                 h += [('Cycle', []), ('Cycle', []),
                       ('Probe', [free[0], rng.randrange(len(scn2['aprofiles'])) + 1])]
                 histories.append(h)
+            # terabyte servers filled exactly, re-registered a few MB LARGER, then a probe
+            # that needs exactly the difference (recorded on scenario 'big', see below)
+            bscn = mcm.SCENARIOS['big']
+            ctx.c02_big = []
+            for _ in range(max(6, n // 8)):
+                hb = [('CreateApp', ['a1', 1]), ('CreateApp', ['a2', 1]), ('Cycle', []),
+                      ('NodeDown', ['s1']), ('NodeUp', ['s1', 1]), ('Cycle', []), ('Cycle', []),
+                      ('Probe', ['a3', 4])]
+                ctx.c02_big.append(hb)
             # an identity group used up, a holder's server and the holder itself gone in
             # ONE batch of events; then a probe of the same group
             gp = [i + 1 for i, p in enumerate(scn2['aprofiles']) if p.get('identity_group')]
@@ -186,6 +195,8 @@ def _l2_traces(ctx, prop, histories=None, scn_name='base'):
     out = []
     raw = mcm.record(scn_name, histories)
     ctx.l2raw = raw
+    if prop == 'C02' and generated and getattr(ctx, 'c02_big', None):
+        raw = raw + mcm.record('big2', ctx.c02_big)
     if prop == 'C03' and generated:
         dscn = mcm.SCENARIOS['dup']
         raw = raw + mcm.record('dup', [mcm.gen_random(dscn, rng, rng.choice([8, 12])) if k % 3 == 0 else
@@ -380,7 +391,7 @@ def replay(ctx, prop, path):
             # judged after the step that follows the recorded prefix: a restart for keepRestart
             h = [tuple(x) for x in payload['history']]
             h.append(('Restart', []) if payload['clause'] == 'C08.keepRestart' else ('Cycle', []))
-        traces = _l2_traces(ctx, prop, [h], scn_name if scn_name in ('base', 'big', 'dup') else 'base')
+        traces = _l2_traces(ctx, prop, [h], scn_name if scn_name in ('base', 'big', 'dup', 'big2') else 'base')
         verdicts, _ = sc.validate(traces)
         ctx.extra_violations = _c08_master(ctx, prop)
         return judge(ctx, prop, traces, verdicts)
